@@ -157,7 +157,11 @@ def driver_batch(requests: list[dict]) -> list[dict]:
 # case execution
 
 
-CASE_TIMEOUT_S = int(os.environ.get("VERIF_CASE_TIMEOUT", "20"))
+CASE_TIMEOUT_S = int(os.environ.get("VERIF_CASE_TIMEOUT", "10"))
+# after this many non-terminating cases a chunk stops calling the real code: each of them is already a
+# failing input, and a change that makes (say) every re-appended element loop would otherwise cost
+# CASE_TIMEOUT_S per case
+MAX_TIMEOUTS_PER_CHUNK = 3
 
 
 class CaseTimeout(BaseException):
@@ -183,12 +187,16 @@ def eval_cases(mod, cases: list) -> list[dict]:
         except ValueError:  # not in the main thread
             can_alarm = False
     reqs, obss = [], []
+    ntimeouts = 0
     for c in cases:
+        if ntimeouts >= MAX_TIMEOUTS_PER_CHUNK:
+            break
         try:
             if can_alarm:
                 signal.alarm(CASE_TIMEOUT_S)
             obs = mod.run_impl(c)
         except CaseTimeout:
+            ntimeouts += 1
             obs = {"harness_exc": "CaseTimeout", "msg": f"the operation on the real code did not finish within {CASE_TIMEOUT_S} s"}
         except Exception as e:  # the harness itself must never die on a mutant
             obs = {"harness_exc": type(e).__name__, "msg": str(e)[:300], "tb": traceback.format_exc()[-1500:]}
@@ -199,6 +207,7 @@ def eval_cases(mod, cases: list) -> list[dict]:
         reqs.append(mod.request(c, obs))
     if can_alarm:
         signal.signal(signal.SIGALRM, old)
+    cases = cases[: len(obss)]
     resps = driver_batch(reqs)
     out = []
     for c, o, r in zip(cases, obss, resps):
